@@ -69,7 +69,7 @@ def regular_vectors(dim, tier):
     vs = [v for v in A.vectors(dim, "thorough") if not (v.has("near_axis") or v.has("fast") or v.has("negtime") or v.has("spacelike") or v.has("spacelike_tltz") or v.has("boundary"))]
     n = 4 if tier == "quick" else 10
     step = max(1, len(vs) // n)
-    return vs[::step][:n]
+    return A.representatives(vs, n)
 
 
 def scalar_points(op, tier):
